@@ -9,7 +9,7 @@ Three pieces of real code are chained by z3 terms:
   (3) the verifier's loader (src/test_verifier/main.cpp, extracted textually: regs.Reset(); regs.a = ...; regs.Set<stt0>(...))
       -> the RegisterState the instruction starts from;
 then the interpreter's handler for the same row runs from that state (real Matcher<Interpreter>::call) and the obligation is:
-enable(opcode) ==> no abort / assertion / unimplemented exit, pc untouched by the handler (Run adds the length: C02
+enable(opcode) ==> no abort / assertion exit (UnimplementedException is the outcome the verifier skips), pc untouched by the handler (Run adds the length: C02
 Run.length), every data read and write address inside [0x6400,0x6600) or [0xCC00,0xCE00)."""
 import z3
 from engine import build, kit, core
@@ -188,9 +188,9 @@ def inwin(a):
 
 
 def job_rows(idx, tier, seed):
-    from checks import c03
+    from checks import c01
     ck = core.Check('C01', 'translation_validation', tier, seed)
-    E = c03.env()
+    E = c01.envs()[0]
     ex, st0, ctx = E.base()
     g = gen_env()
     ld = loader_env()
@@ -228,19 +228,22 @@ def job_rows(idx, tier, seed):
             ck.inconclusive.append('%s: %s' % (nm, str(x)[:120]))
             continue
         X = type('X', (), {'exits': r['exits']})()
-        goals = [z3.Not(kit.exit_cond(X, ('assert', 'abort', 'throw', 'trap', 'ub')))]
+        # UnimplementedException is an outcome the verifier handles ("Skipped one unimplemented case"): not an abort. That the
+        # current tree does not throw it more often than the reference is clause A (RowEquiv).
+        goals = [z3.Not(kit.exit_cond(X, ('assert', 'abort', 'trap', 'ub')))]
+        thrown = kit.exit_cond(X, ('throw',))
         if r['st'] is not None:
             post = E.post_regs(r['st'])
-            goals.append(post['pc'] == ld['regs']['pc'])
+            goals.append(z3.Or(thrown, post['pc'] == ld['regs']['pc']))
             for ev in r['st'].log:
                 if ev[0] in ('R', 'W'):
-                    goals.append(z3.Implies(kit.path_cond(ev[1]), inwin(ev[2])))
+                    goals.append(z3.Or(thrown, z3.Implies(kit.path_cond(ev[1]), inwin(ev[2]))))
         else:
-            goals.append(z3.BoolVal(False))
+            goals.append(thrown)
         vars_ = {'o': o, 'e': e}
         vars_.update({'state.' + f: t for f, t in ld['SV'].items()})
         ck.prove(nm, A, z3.And(*goals), vars=vars_, replay=replayer(E, i), witness=(i % 16 == 0),
-                 sample=('row %d (%s): every state Config::GenerateRandomState can emit for an enabled opcode of this row, loaded as the verifier loads it, executes without abort/unimplemented, leaves pc to the fetch loop and reads/writes data memory only inside the X/Y test windows' % (i, row['name'])) if i % 40 == 0 else None)
+                 sample=('row %d (%s): every state Config::GenerateRandomState can emit for an enabled opcode of this row, loaded as the verifier loads it, executes without abort, leaves pc to the fetch loop and reads/writes data memory only inside the X/Y test windows' % (i, row['name'])) if i % 40 == 0 else None)
     return ck.export()
 
 
@@ -269,7 +272,7 @@ def replayer(E, i):
             return None, {'native': out}
         res = out[1]
         if res.get('unimpl'):
-            return True, {'native': 'UnimplementedException'}
+            return False, {'native': 'UnimplementedException (tolerated outcome) - the model claimed an abort, a pc change or an outside access'}
         if res['regs'].get('pc', regs.get('pc')) != regs.get('pc'):
             return True, {'native': 'pc changed by the handler', 'pc': res['regs'].get('pc')}
         bad = [a for a in res.get('dmem', {}) if not (XLO <= a < XLO + WSZ or YLO <= a < YLO + WSZ)]
@@ -277,3 +280,38 @@ def replayer(E, i):
             return True, {'native': 'data writes outside the windows', 'addresses': ['%#06x' % a for a in bad[:8]]}
         return None, {'native': 'no abort / pc change / outside write observed; reads are not observable natively', 'regs.r': [res['regs'].get('r[%d]' % k) for k in range(8)]}
     return rp
+
+
+def run_clause_b(ck, tier, seed):
+    """called from c01.run: Generator[row] obligations (quick: seeded sample of 64 rows; thorough: all rows)"""
+    import random
+    from checks import c01
+    E = c01.envs()[0]
+    E.base()
+    try:
+        g = gen_env()
+        ld = loader_env()
+    except (Abort, UnwindBound) as x:
+        ck.inconclusive.append('generator clause: %s' % str(x)[:200])
+        return
+    ck.ninstr += g['ninstr'] + ld['ninstr']
+    if g['exits'] or ld['exits']:
+        ck.engine_errors.append('generator clause: GenerateRandomState / loader have exits: %r %r' % ([x[1:] for x in g['exits']][:2], [x[1:] for x in ld['exits']][:2]))
+        return
+    n = len(E.rows)
+    rows = list(range(n))
+    if tier != 'thorough':
+        rnd = random.Random(seed + 7)
+        rnd.shuffle(rows)
+        rows = sorted(rows[:64])
+        ck.notes.append('generator clause: quick tier decides a seeded sample of 64 of the %d rows (thorough: all)' % n)
+    chunks = [rows[k::16] for k in range(16) if rows[k::16]]
+    for r in core.pmap(job_rows, [(c, tier, seed) for c in chunks]):
+        if '__error__' in r:
+            ck.engine_errors.append(r['__error__'])
+        else:
+            ck.absorb(r)
+    ck.funcs.update(['TestGenerator::<every handler> via Matcher<TestGenerator>::call', 'Config::GenerateRandomState', 'ConfigWith*', 'test_verifier main(): the TestCase -> RegisterState loading statements (extracted)', 'RegisterState::Reset, Set<cfgi/cfgj/stt0-2/mod0-2/ar0-1/arp0-3>'])
+    ck.assumptions += ['generator clause: Random::bit16/bit32/bit40/uniform return arbitrary values of their range (bit40: one of its five sign/width shapes); test-space words are unconstrained; the expand word is chosen as GenerateTestCasesToFile does (None: 0, Any: any, Memory: 0x6400 + [10, 0x1F0]) - that 3-way switch is transcribed, the function itself is file I/O',
+                       'generator clause: pc advance = handler leaves pc alone + the fetch loop adds the length (C02 Run.length); verifier state has rep == 0, lp == 0 after RegisterState::Reset']
+    ck.stubs += ['Random::* -> fresh variables', 'std::unordered_set<K>::count(symbolic key) -> membership over the node list built by the real constructor']
